@@ -851,10 +851,15 @@ macro_rules! interp {
                     continue;
                 }
                 let mut ic: Vec<String> = vec![]; let mut sc: Vec<String> = vec![];
+                let mut overfull = false;
                 for r in 0..NREG {
                     let mut c = vec![]; <T as Shape>::cols(&regs[r], &mut c); ic.push(fmt_cols(&c));
                     sc.push(fmt_cols(&mirror_cols(&mirs[r])));
+                    // a field array holding more elements than its allocation: something was written past its end
+                    let mut cp = vec![]; <T as Shape>::caps(&regs[r], &mut cp);
+                    if c.iter().zip(cp.iter()).any(|(col, cap)| col.len() > *cap) { overfull = true; }
                 }
+                let ri = if overfull { format!("{} inb=false overfull=true", ri) } else { format!("{}", ri) };
                 emit(out, format!("I {} {} regs={}", n, ri, ic.join(";")));
                 emit(out, format!("S {} {} regs={}", n, rs, sc.join(";")));
             }
